@@ -55,7 +55,7 @@ def run_bash(ctx, cfg, items, par=8):
     return [x for c in res for x in c]
 
 
-def coq_shards(ctx, name, header, ctype, runner, items, nshards=6):
+def coq_shards(ctx, name, header, ctype, runner, items, nshards=8):
     """Evaluate `runner` (a Coq function item -> N verdict, 0 = agree) over items in parallel shards.
     Returns list of (index, verdict) with verdict != 0, or None if coqc failed."""
     if not items:
@@ -523,7 +523,7 @@ def run(ctx):
                 "over the pattern's first 4 distinct runes + 'a' (+ upper case for nocasematch), in three configurations "
                 "(extglob matcher vs [[ ]], plain Regexp vs case with extglob off, NoGlobCase vs nocasematch); "
                 "non-trivial = distinct (pattern, config) whose pattern has * ? [ or (")
-    code_leg(ctx, binp, 40 if quick else 1500)
+    code_leg(ctx, binp, 30 if quick else 1500)
     # ---- search
     rc, rows, err = ctx.jsonl([binp, "enum", "-n", "3" if quick else "4", "-seed", str(ctx.seed), "-tier", ctx.tier], timeout=1800)
     rc2, trows, err2 = ctx.jsonl([binp, "tokens", "-n", "4000", "-seed", str(ctx.seed), "-tier", ctx.tier], timeout=1800)
@@ -542,6 +542,42 @@ def run(ctx):
             ctx.fail(r["clause"], {"pattern": unhex(r["p"]), "mode": r["m"]}, None, r.get("detail"))
     ctx.count(nsweep)
     ctx.extra["literal_sweep_cases"] = nsweep
+    # ---- Filenames mode: a run of >= 3 stars means the same as one star (only an exact ** element is globstar); Go-side law
+    rc6, lrows, err6 = ctx.jsonl([binp, "starlaw", "-seed", str(ctx.seed), "-tier", ctx.tier], timeout=900)
+    nlaw = 0
+    for r in lrows:
+        if "summary" in r:
+            nlaw = r["summary"]["cases"]
+        else:
+            ctx.fail(r["clause"], {"pattern": unhex(r["p"]), "mode": r["m"]}, r.get("class") or None, r.get("detail"))
+    ctx.count(nlaw)
+    ctx.extra["filenames_star_run_law_cases"] = nlaw
+    # the premise of that law checked against real bash: pathname expansion (globstar on) in a scratch tree gives the same
+    # list for the pattern and for its collapsed form
+    rc7, prow, err7 = ctx.jsonl([binp, "starpairs", "-seed", str(ctx.seed), "-tier", ctx.tier], timeout=600)
+    if prow:
+        import shutil
+        scratch = tempfile.mkdtemp(prefix="c17paths", dir=os.path.join(ROOT, "build"))
+        try:
+            inp = os.path.join(scratch, "..", os.path.basename(scratch) + ".in")
+            with open(inp, "w") as f:
+                for r in prow:
+                    f.write(r["p"] + "\n" + r["q"] + "\n")
+            rcb, out, errb = ctx.run(["env", "-i", "LC_ALL=C.UTF-8", "PATH=/usr/bin:/bin", "timeout", "300", "bash",
+                                      os.path.join(ROOT, "corpus", "c17", "oracle_paths.sh"), os.path.abspath(inp)], timeout=400, cwd=scratch)
+        finally:
+            shutil.rmtree(scratch, ignore_errors=True)
+            try:
+                os.unlink(inp)
+            except OSError:
+                pass
+        lines = out.split("\n")[:-1]
+        mism = [{"pattern": r["p"], "collapsed": r["q"], "bash": l[:200]} for r, l in zip(prow, lines) if l != "1"]
+        if len(lines) != len(prow):
+            mism.append({"error": "bash returned %d lines for %d pairs: %s" % (len(lines), len(prow), errb[-200:])})
+        ctx.leg("oracle:bash pathname expansion (globstar) treats a run of >=3 stars like one star", len(prow), mism)
+    if rc6 != 0 or not nlaw:
+        ctx.broken.append(("harness-run", "star-run law produced no summary: " + err6[-300:]))
     if not nsweep:
         ctx.broken.append(("harness-run", "literal sweep produced no summary"))
     allrows = wrows + rows + trows + brows
